@@ -196,7 +196,15 @@ func GenCase(r *rand.Rand, o GenOptions) *Case {
 			if f == nil {
 				return nil
 			}
+			// the G-families (known code-generator defects) only appear when asked for
+			if strings.HasPrefix(f.name, "G-") && o.Family != f.name {
+				f = nil
+				continue
+			}
 			break
+		}
+		if f == nil {
+			continue
 		}
 		v := 0
 		switch {
